@@ -36,7 +36,8 @@ PROPS = {
     "C02": dict(theorems=["C02_engine_computes_semantics", "C02_node_refines", "C02_all_failing_tests_reported", "C02_test_issues_at_own_path", "C02_missing_required_is_one_issue", "C02_coerce_failure_is_one_issue", "C02_struct_not_a_record", "C02_nil_iff_no_violation"], cone=ENGINE_CONE + ["Proofs/ExactP.v", "Proofs/AbsentP.v"], rule=ENGINE_RULE,
                 families=[eng("engine", "C02", 1200, 20000, ["nil", "issues", "panic"])]),
     "C03": dict(theorems=["C03_engine_computes_semantics", "C03_leaf_is_coercion", "C03_documented_coercions", "C03_unnamed_fields_untouched", "C03_slice_keeps_length_and_order", "C03_pointer_allocates", "C03_absent_pointer_stays_nil"], cone=ENGINE_CONE + ["Model/Coerce.v", "Proofs/ExactP.v"], rule=ENGINE_RULE,
-                families=[eng("engine", "C03", 1200, 20000, ["dest", "panic"])]),
+                families=[eng("engine", "C03", 1200, 20000, ["dest", "panic"]),
+                          eng("catching", "C05", 600, 10000, ["dest", "panic"])]),   # destinations next to nodes that catch: a leaf holds the coercion of its own input),
     "C04": dict(theorems=["C04_parse_absent_iff", "C04_falsy_values_are_present", "C04_validate_absent_examples", "C04_absent_default", "C04_absent_required", "C04_absent_optional", "C04_slice_absent_required", "C04_slice_absent_optional", "C04_ptr_absent_notnil", "C04_ptr_absent_optional", "C04_engine_computes_semantics"], cone=ENGINE_CONE + ["Proofs/AbsentP.v"], rule=ENGINE_RULE,
                 families=[eng("engine", "C04", 1200, 20000, ["nil", "issues", "dest", "calls", "panic"])]),
     "C05": dict(theorems=["C05_catch_own_node", "C05_catch_is_local", "C05_elements_are_independent", "C05_engine_computes_semantics"], cone=ENGINE_CONE + ["Proofs/Indep.v", "Proofs/CatchP.v"], rule=ENGINE_RULE,
